@@ -206,21 +206,29 @@ def main(tier: str, only: list[dict] | None = None) -> int:
         if outcome == "mal_undiagnosed" and "inst" in r:
             undiagnosed.append(r)
         for clause, text in viol:
+            sig = sig_of(p, clause, e)
+            if clause == "wellformed_rejected":
+                sig["rejected_by"] = "+".join(sorted(
+                    {f"{st}:{s_['exc']}" for st, lst in r["stages"].items() for s_ in lst
+                     if s_ and s_["status"] == "raised"}))
             run.violation(f"{r['id']}:{clause}", f"{r['id']} [{fl}]: {text}",
-                          record={"prog": p}, observed=observed, expected=e,
-                          sig=sig_of(p, clause, e))
+                          record={"prog": p}, observed=observed, expected=e, sig=sig)
     # partitions that were returned for malformed programs: what would happen?
     if undiagnosed:
         mc = dc.model_check([r["inst"] for r in undiagnosed])
         for r in undiagnosed:
-            cl = sorted(mc["clauses"].get(r["id"], set()))
+            # the global graph of a malformed program has no meaning, so "wrong value"
+            # verdicts are not reported for it: only crash / spin / deadlock count
+            cl = sorted(mc["clauses"].get(r["id"], set()) - {"misdelivery", "output_wrong"}) \
+                or ["executes"]
             p, e = by_id[r["id"]], exp[r["id"]]
             run.violation(
                 f"{r['id']}:partitioned_malformed:{'+'.join(cl)}",
                 f"{r['id']}: the partitions returned for a malformed program "
                 f"({e['why']}) under DistExec (all schedules): {cl}",
                 record={"prog": p},
-                observed=dc.counterexample(r["inst"]) if cl != ["ok"] else "executes",
+                observed=dc.counterexample(r["inst"]) if cl not in (["ok"], ["executes"])
+                else "executes in every schedule",
                 expected=e, sig=sig_of(p, "partitioned:" + "+".join(cl), e))
         run.coverage["undiagnosed_model_checked"] = len(undiagnosed)
         run.coverage["undiagnosed_distexec_states"] = mc["nstates"]
